@@ -73,7 +73,7 @@ CLAIMS = {
         design='4/C04'),
     'C05': dict(
         technique='Coq program-level crash theorems for every operation and for whole histories (all inputs, every crash point) + verified crash monitor + kill at every gated I/O call',
-        text=('PROOF (Coq, closed): C05_every_crash_point_of_every_history, C05_pack_all_loose_over_any_number_of_packs (a call that rolls over '
+        text=('PROOF (Coq, closed): C05_every_crash_point_of_every_history, C05_no_history_loses_an_object (no deletion in the history: everything stored at its start is stored at every crash point), C05_pack_all_loose_over_any_number_of_packs (a call that rolls over '
               'any number of packs), per operation C05_{add_loose,pack,clean,delete,repack,add_to_pack,import}_every_crash_point (Inv and every '
               'stored object still stored with its bytes); C05_monitor_sound (accepted trace => at EVERY crash point, buffers and open transaction dropped, Inv holds and every '
               'non-target object is still stored), C05_add_loose_every_crash_point (ALL inputs, worlds, chunkings, crash points), '
